@@ -4,7 +4,10 @@ Oracle: a whitelist automaton over the expat event stream of the output - elemen
 attribute names, value syntax of every non-class attribute, parent/child structure, no comment / processing
 instruction / doctype / entity / CDATA event, character data only inside text and style - plus marker
 tracing: a unique token MK<n> carried by the payload may only surface in character data of text/style, or in
-a class attribute as part of an identifier token. The defs subtree must equal the frozen one.
+a class attribute as part of an identifier token. "svgbob's own vocabulary" is the static list below joined
+with whatever the tree under test emits for a payload-free reference corpus (so that a maintainer's new
+attribute or marker is not mistaken for an injection); the defs subtree must equal the one the same tree
+emits for a payload-free document.
 """
 import json
 import os
@@ -21,7 +24,9 @@ RULE = ('markup payloads (<script>, </style><script>, <a href>, on*= attributes,
         'and invalid, legend names, legend declarations, text after the legend) x host diagrams (box, circle, random grid) x '
         'entry points x include_* sets; non-trivial = every distinct payload-carrying document')
 ASSUMPTIONS = ['expat is a conforming XML parser; a document expat rejects counts as a violation here as well (nothing can be shown about it)',
-               'the vocabulary and the defs subtree are frozen in data/vocabulary.json from the unchanged tree']
+               'the vocabulary is the static list in c08.py (also kept in data/vocabulary.json) joined with the elements, attributes, constant '
+               'attribute values and nestings the tree under test emits for a payload-free reference corpus; the defs subtree is compared '
+               'with the one the same tree emits for a payload-free document']
 CHANNELS = ['plain', 'quoted', 'tag', 'tag_invalid', 'legname', 'legdecl', 'afterlegend']
 FLOORS = {'quick': dict([('distinct_nontrivial', 3000)] + [('channel_' + c, 300) for c in CHANNELS]),
           'thorough': dict([('distinct_nontrivial', 100000)] + [('channel_' + c, 8000) for c in CHANNELS])}
@@ -46,12 +51,66 @@ PARENTS = {
 BAD_CLASS = re.compile(r'[<>&"\'=/\;:(){}\[\]]')
 
 
-def frozen_defs():
-    return json.load(open(os.path.join(VERIF, 'data', 'vocabulary.json')))['defs']
+REFERENCE = ['+\n', 'abc d\n', '+--+\n|ab|\n+--+\n', '.--.\n|{a}|\n\'--\'\n# Legend:\na = {fill:red}\n', '-->  <--  ^  v\n     |   |\n', '*--o--O\n',
+             '   ___\n ,\'   `.\n/       \\\n\\       /\n `.___.\'\n', ' .-\n/\n', '~~~ === ::: ___\n', '"quoted"  ▲ ● ○ ╭─╮\n', '/\\\n\\/\n', '']
 
 
-def audit(doc, marker, frozen):
+def defs_of(evs):
+    stack = []
+    out = []
+    for e in evs:
+        if e[0] == 'start':
+            name = e[1].rpartition(' ')[2]
+            if 'defs' in stack:
+                out.append(['start', name, [list(kv) for kv in sorted(e[2].items())]])
+            stack.append(name)
+        elif e[0] == 'end':
+            stack.pop()
+            if 'defs' in stack:
+                out.append(['end', e[1].rpartition(' ')[2]])
+    return out
+
+
+def own_vocabulary(binary):
+    """what the tree under test emits for payload-free documents: elements, attributes, constant values, nestings"""
+    from vlib import Driver
+    d = Driver(binary)
+    voc = {}
+    parents = {}
+    values = {}
+    defs = None
+    for doc in REFERENCE:
+        for kw in ({'entry': 0}, {'entry': 3, 'flags': 7}, {'entry': 4, 'flags': 7, 'ow': 100.0, 'oh': 50.5}):
+            r = d.conv(doc, **kw)
+            if not r.ok:
+                continue
+            try:
+                evs = xml_events(r.out)
+            except Malformed:
+                continue
+            if defs is None:
+                defs = defs_of(evs)
+            stack = []
+            for e in evs:
+                if e[0] == 'start':
+                    ns, _, name = e[1].rpartition(' ')
+                    if ns == SVGNS:
+                        voc.setdefault(name, set()).update(e[2].keys())
+                        parents.setdefault(name, set()).add(stack[-1] if stack else None)
+                        for an, av in e[2].items():
+                            values.setdefault(name + ' ' + an, set()).add(av)
+                    stack.append(name)
+                elif e[0] == 'end':
+                    stack.pop()
+    d.close()
+    return {'defs': defs or [], 'voc': {k: sorted(v) for k, v in voc.items()}, 'parents': {k: sorted(v, key=str) for k, v in parents.items()},
+            'values': {k: sorted(v) for k, v in values.items()}}
+
+
+def audit(doc, marker, own):
     """None or the description of the first event that is not svgbob's own vocabulary"""
+    frozen = own['defs']
+    ovoc, opar, oval = own['voc'], own['parents'], own['values']
     try:
         evs = xml_events(doc)
     except Malformed as e:
@@ -59,6 +118,7 @@ def audit(doc, marker, frozen):
     stack = []
     defs_evs = []
     roots = 0
+    singles = {}
     for e in evs:
         k = e[0]
         if k == 'start' and 'defs' in stack:
@@ -69,15 +129,19 @@ def audit(doc, marker, frozen):
             ns, _, name = e[1].rpartition(' ')
             if ns != SVGNS:
                 return 'element %r outside the svg namespace' % e[1]
-            if name not in VOC:
+            if name not in VOC and name not in ovoc:
                 return 'element <%s> is not part of svgbob\'s vocabulary' % name
             parent = stack[-1] if stack else None
-            if parent not in PARENTS[name]:
+            if parent not in PARENTS.get(name, ()) and parent not in opar.get(name, ()):
                 return 'element <%s> inside <%s>' % (name, parent)
             if parent is None:
                 roots += 1
+            if name in ('style', 'defs'):
+                singles[name] = singles.get(name, 0) + 1
+                if singles[name] > 1:
+                    return 'a second <%s> element' % name
             for an, av in e[2].items():
-                if an not in VOC[name]:
+                if an not in VOC.get(name, ()) and an not in ovoc.get(name, ()):
                     return 'attribute %r on <%s>' % (an, name)
                 if an == 'class':
                     for tok in av.split():
@@ -88,7 +152,7 @@ def audit(doc, marker, frozen):
                 else:
                     if marker in av:
                         return 'the payload marker surfaces in attribute %s="%s"' % (an, av[:80])
-                    if not re.fullmatch(VALUE[an], av):
+                    if not (an in VALUE and re.fullmatch(VALUE[an], av)) and av not in oval.get(name + ' ' + an, ()) and not re.fullmatch(NUM, av):
                         return 'attribute %s="%s" on <%s> does not have the syntax svgbob writes' % (an, av[:80], name)
             stack.append(name)
         elif k == 'end':
@@ -158,7 +222,7 @@ def check_case(ctx, case):
     ctx.note(key_of(case['doc'], sorted(case['kw'].items())), True, 'channel_' + case['channel'])
     if not r.ok:
         return 'conversion failed: ' + r.fail_text()
-    msg = audit(r.out, case['marker'], ctx.extra['defs'])
+    msg = audit(r.out, case['marker'], ctx.extra['own'])
     if msg:
         return 'channel %s: %s' % (case['channel'], msg)
     return None
@@ -187,33 +251,22 @@ def run_shard(ctx, shard):
 
 
 def freeze(binary):
-    """(re)create data/vocabulary.json from the tree: only used by hand on the unchanged tree"""
-    from vlib import Driver
-    d = Driver(binary)
-    evs = xml_events(d.conv('+\n', entry=0).out)
-    stack = []
-    out = []
-    for e in evs:
-        if e[0] == 'start':
-            name = e[1].rpartition(' ')[2]
-            if 'defs' in stack:
-                out.append(['start', name, [list(kv) for kv in sorted(e[2].items())]])
-            stack.append(name)
-        elif e[0] == 'end':
-            stack.pop()
-            if 'defs' in stack:
-                out.append(['end', e[1].rpartition(' ')[2]])
-    d.close()
-    json.dump({'defs': out, 'elements': {k: sorted(v) for k, v in VOC.items()}}, open(os.path.join(VERIF, 'data', 'vocabulary.json'), 'w'), indent=1)
+    """(re)create data/vocabulary.json (documentation of the static list and of the defs of the unchanged tree)"""
+    own = own_vocabulary(binary)
+    json.dump({'defs': own['defs'], 'elements': {k: sorted(v) for k, v in VOC.items()}}, open(os.path.join(VERIF, 'data', 'vocabulary.json'), 'w'), indent=1)
 
 
 def execute(run):
     binary = build_driver()
     if os.environ.get('VERIF_FREEZE_VOCABULARY'):
         freeze(binary)
-    frozen = frozen_defs()
+    own = own_vocabulary(binary)
+    if not own['voc'].get('svg'):
+        run.inconclusive['the payload-free reference corpus produced no document'] += 1
+        return
+    run.extra_cov['reference_vocabulary'] = {k: v for k, v in own['voc'].items()}
     n, k = (3000, 16) if run.tier == 'quick' else (9000, 32)
-    run.run_shards(binary, [{'name': 'pay-%d' % i, 'idx': i, 'n': n} for i in range(k)], extra={'defs': frozen})
+    run.run_shards(binary, [{'name': 'pay-%d' % i, 'idx': i, 'n': n} for i in range(k)], extra={'own': own})
 
 
 if __name__ == '__main__':
